@@ -169,8 +169,8 @@ Proof.
 Qed.
 
 (* ------------------------------------------------------------------ keys and the wire image *)
-Definition cip (id : N) : N := 167772416 + id.
-Definition sip : N := 167772673.
+Definition cip (id : N) : N := wire_cip id.
+Definition sip : N := wire_sip.
 Definition cport (id : N) : N := 40000 + id.
 Definition ckey (id : N) : fkey := (cip id, sip, cport id, 80).
 Definition skey (id : N) : fkey := (sip, cip id, 80, cport id).
@@ -183,7 +183,7 @@ Proof.
   - intros [= -> -> -> ->]. auto.
 Qed.
 Lemma ckey_inj a b : ckey a = ckey b -> a = b.
-Proof. unfold ckey, cip. intros [= H _]. lia. Qed.
+Proof. unfold ckey, cport. intros [= _ H]. lia. Qed.
 Lemma skey_not_ckey a b : skey a <> ckey b.
 Proof. unfold skey, ckey, cport. intros [= _ _ H]. lia. Qed.
 
